@@ -1,0 +1,220 @@
+//go:build verif
+
+package cty
+
+// Frame declarations for govc's C20 sweep: the complete list of functions in
+// this package that may write an object they did not allocate themselves, each
+// with the single object it may write. Every other function of the package is
+// checked against the implicit frame "writes nothing it did not allocate".
+// Comment-only file.
+//
+//@ func (*cty.refinementNullable).setNull
+//@   tags C20
+//@   frame_only
+//@   writes cty.refinementNullable r
+//
+//@ func (*cty.RefinementBuilder).NumberRangeLowerBound
+//@   tags C20
+//@   frame_only
+//@   ensures (= result b)
+//@   writes cty.refinementNumber (wip_num (b_wip b))
+//
+//@ func (*cty.RefinementBuilder).NumberRangeUpperBound
+//@   tags C20
+//@   frame_only
+//@   ensures (= result b)
+//@   writes cty.refinementNumber (wip_num (b_wip b))
+//
+//@ func (*cty.RefinementBuilder).CollectionLengthLowerBound
+//@   tags C20
+//@   frame_only
+//@   ensures (= result b)
+//@   writes cty.refinementCollection (wip_coll (b_wip b))
+//
+//@ func (*cty.RefinementBuilder).CollectionLengthUpperBound
+//@   tags C20
+//@   frame_only
+//@   ensures (= result b)
+//@   writes cty.refinementCollection (wip_coll (b_wip b))
+//
+//@ func (*cty.RefinementBuilder).StringPrefixFull
+//@   tags C20
+//@   frame_only
+//@   ensures (= result b)
+//@   writes cty.refinementString (wip_str (b_wip b))
+//
+//@ func (*cty.listElementIterator).Next
+//@   tags C20
+//@   frame_only
+//@   writes cty.listElementIterator it
+//
+//@ func (*cty.mapElementIterator).Next
+//@   tags C20
+//@   frame_only
+//@   writes cty.mapElementIterator it
+//
+//@ func (*cty.objectElementIterator).Next
+//@   tags C20
+//@   frame_only
+//@   writes cty.objectElementIterator it
+//
+//@ func (*cty.tupleElementIterator).Next
+//@   tags C20
+//@   frame_only
+//@   writes cty.tupleElementIterator it
+//
+//@ func cty.testConformance
+//@   tags C20
+//@   frame_only
+//@   writes Slice errs
+//
+//@ func (*cty.Type).UnmarshalJSON
+//@   tags C20
+//@   frame_only
+//@   writes cty.Type t
+//
+//@ func (*cty.unmarkTransformer).Enter
+//@   tags C20
+//@   frame_only
+//@   writes cty.unmarkTransformer t
+//
+//@ func cty.appendSetHashBytes
+//@   tags C20
+//@   frame_only
+//@   writes MapC<Any~Unit> marks
+//@   writes bytes.Buffer buf
+//
+// Interface contracts of unknownValRefinement (assumed at dynamic calls; every
+// implementer below carries the same clauses and is verified against them).
+//
+//@ func (cty.unknownValRefinement).copy
+//@   trusted
+//@   tags C20
+//@   fresh_obj cty.refinementNumber (wip_num result)
+//@   fresh_obj cty.refinementString (wip_str result)
+//@   fresh_obj cty.refinementCollection (wip_coll result)
+//@   fresh_obj cty.refinementNullable (wip_nul result)
+//@   ensures (= (rfn_kind result) (rfn_kind recv))
+//@   ensures (not (= result nil.Any))
+//
+//@ func (cty.unknownValRefinement).setNull
+//@   trusted
+//@   tags C20
+//@   writes cty.refinementNumber (wip_num recv)
+//@   writes cty.refinementString (wip_str recv)
+//@   writes cty.refinementCollection (wip_coll recv)
+//@   writes cty.refinementNullable (wip_nul recv)
+//
+//@ func (*cty.refinementString).copy
+//@   tags C20
+//@   frame_only
+//@   fresh_obj cty.refinementNumber (wip_num result)
+//@   fresh_obj cty.refinementString (wip_str result)
+//@   fresh_obj cty.refinementCollection (wip_coll result)
+//@   fresh_obj cty.refinementNullable (wip_nul result)
+//@   ensures (= (rfn_kind result) 2)
+//
+//@ func (*cty.refinementNumber).copy
+//@   tags C20
+//@   frame_only
+//@   fresh_obj cty.refinementNumber (wip_num result)
+//@   fresh_obj cty.refinementString (wip_str result)
+//@   fresh_obj cty.refinementCollection (wip_coll result)
+//@   fresh_obj cty.refinementNullable (wip_nul result)
+//@   ensures (= (rfn_kind result) 1)
+//
+//@ func (*cty.refinementCollection).copy
+//@   tags C20
+//@   frame_only
+//@   fresh_obj cty.refinementNumber (wip_num result)
+//@   fresh_obj cty.refinementString (wip_str result)
+//@   fresh_obj cty.refinementCollection (wip_coll result)
+//@   fresh_obj cty.refinementNullable (wip_nul result)
+//@   ensures (= (rfn_kind result) 3)
+//
+//@ func (*cty.refinementNullable).copy
+//@   tags C20
+//@   frame_only
+//@   fresh_obj cty.refinementNumber (wip_num result)
+//@   fresh_obj cty.refinementString (wip_str result)
+//@   fresh_obj cty.refinementCollection (wip_coll result)
+//@   fresh_obj cty.refinementNullable (wip_nul result)
+//@   ensures (= (rfn_kind result) 4)
+//
+//@ func (cty.Value).Refine
+//@   tags C20
+//@   frame_only
+//@   fresh result
+//@   fresh_obj cty.refinementNumber (wip_num (cty.RefinementBuilder.wip (select $H<cty.RefinementBuilder> result)))
+//@   fresh_obj cty.refinementString (wip_str (cty.RefinementBuilder.wip (select $H<cty.RefinementBuilder> result)))
+//@   fresh_obj cty.refinementCollection (wip_coll (cty.RefinementBuilder.wip (select $H<cty.RefinementBuilder> result)))
+//@   fresh_obj cty.refinementNullable (wip_nul (cty.RefinementBuilder.wip (select $H<cty.RefinementBuilder> result)))
+//
+//@ func (*cty.RefinementBuilder).NotNull
+//@   tags C20
+//@   frame_only
+//@   ensures (= result b)
+//@   writes cty.refinementNumber (wip_num (b_wip b))
+//@   writes cty.refinementString (wip_str (b_wip b))
+//@   writes cty.refinementCollection (wip_coll (b_wip b))
+//@   writes cty.refinementNullable (wip_nul (b_wip b))
+//
+//@ func (*cty.RefinementBuilder).Null
+//@   tags C20
+//@   frame_only
+//@   ensures (= result b)
+//@   writes cty.refinementNumber (wip_num (b_wip b))
+//@   writes cty.refinementString (wip_str (b_wip b))
+//@   writes cty.refinementCollection (wip_coll (b_wip b))
+//@   writes cty.refinementNullable (wip_nul (b_wip b))
+//
+//@ func (*cty.RefinementBuilder).CollectionLength
+//@   tags C20
+//@   frame_only
+//@   ensures (= result b)
+//@   writes cty.refinementCollection (wip_coll (b_wip b))
+//
+//@ func (*cty.RefinementBuilder).NumberRangeInclusive
+//@   tags C20
+//@   frame_only
+//@   ensures (= result b)
+//@   writes cty.refinementNumber (wip_num (b_wip b))
+//
+//@ func (*cty.RefinementBuilder).StringPrefix
+//@   tags C20
+//@   frame_only
+//@   ensures (= result b)
+//@   writes cty.refinementString (wip_str (b_wip b))
+//
+//@ func cty.numericRangeArithmetic$2
+//@   tags C20
+//@   frame_only
+//@   ensures (= result builder)
+//@   writes cty.refinementNumber (wip_num (b_wip builder))
+//
+//@ func cty.appendSetHashBytes$1
+//@   tags C20
+//@   frame_only
+//@   writes MapC<Any~Unit> (select F.Int marks)
+//@   writes bytes.Buffer (select F.Int buf)
+//
+//@ func cty.appendSetHashBytes$2
+//@   tags C20
+//@   frame_only
+//@   writes MapC<Any~Unit> (select F.Int marks)
+//@   writes bytes.Buffer (select F.Int buf)
+//
+//@ func cty.appendSetHashBytes$3
+//@   tags C20
+//@   frame_only
+//@   writes MapC<Any~Unit> (select F.Int marks)
+//@   writes bytes.Buffer (select F.Int buf)
+//
+//@ func cty.valueRefineLengthResult$1
+//@   tags C20
+//@   frame_only
+//@   ensures (= result b)
+//@   writes cty.refinementNumber (wip_num (b_wip b))
+//@   writes cty.refinementString (wip_str (b_wip b))
+//@   writes cty.refinementCollection (wip_coll (b_wip b))
+//@   writes cty.refinementNullable (wip_nul (b_wip b))
